@@ -142,6 +142,15 @@ pub enum IterOp {
     Count,
     /// `it.by_ref().last()` (only scripted when few items remain)
     Last,
+    /// `it.by_ref().max()` / `min()` (only scripted when few items remain)
+    Max,
+    Min,
+    /// the iterator consumed by value (must be the last call of a script): `it.max()`,
+    /// `it.min()`, `it.last()`, `it.count()`
+    MaxOwned,
+    MinOwned,
+    LastOwned,
+    CountOwned,
 }
 
 #[derive(Clone, Debug, PartialEq, Eq)]
@@ -154,9 +163,27 @@ pub enum IterObs<L> {
 
 /// `step` sees every observation as soon as it is made and stops the script by returning false
 /// (so that a call is never made on an iterator that has already departed from the model).
-pub fn run_iter_script<L, I: Iterator<Item = L>>(mut it: I, script: &[IterOp], step: &mut dyn FnMut(usize, IterObs<L>) -> bool) {
+pub fn run_iter_script<L: Ord, I: Iterator<Item = L>>(mut it: I, script: &[IterOp], step: &mut dyn FnMut(usize, IterObs<L>) -> bool) {
     for (k, op) in script.iter().enumerate() {
         let o = match *op {
+            IterOp::MaxOwned => {
+                step(k, IterObs::Item(it.max()));
+                return;
+            }
+            IterOp::MinOwned => {
+                step(k, IterObs::Item(it.min()));
+                return;
+            }
+            IterOp::LastOwned => {
+                step(k, IterObs::Item(it.last()));
+                return;
+            }
+            IterOp::CountOwned => {
+                step(k, IterObs::Count(it.count()));
+                return;
+            }
+            IterOp::Max => IterObs::Item(it.by_ref().max()),
+            IterOp::Min => IterObs::Item(it.by_ref().min()),
             IterOp::Next => IterObs::Item(it.next()),
             IterOp::Nth(k) => IterObs::Item(it.nth(k)),
             IterOp::SizeHint => {
